@@ -766,6 +766,26 @@ def _domains():
     put("ColorFormat", "brightness", vals=[-0.25, 0.4, 0, 1.0, -1.0, 0.123, 0], tol=1e-5)
     put("FillFormat", "gradient_angle", vals=[0.0, 45.0, 90.5, 359.0, 180.0], tol=1 / 60000)
     put("FillFormat", "pattern", vals=[MSO_PATTERN_TYPE.CROSS, MSO_PATTERN_TYPE.WAVE, MSO_PATTERN_TYPE.PERCENT_5, MSO_PATTERN_TYPE.WIDE_UPWARD_DIAGONAL], none=None)
+    # values outside the documented domain: refused with ValueError / TypeError, nothing changes
+    TOP = 27273042316900
+    BAD = {
+        ("Presentation", "slide_width"): [Emu(914399), Emu(51206401), Emu(0), Emu(-1)], ("Presentation", "slide_height"): [Emu(914399), Emu(51206401)],
+        ("BaseShape", "left"): [Emu(TOP + 1), Emu(-27273042329601)], ("BaseShape", "top"): [Emu(TOP + 1), Emu(-27273042329601)],
+        ("BaseShape", "width"): [Emu(-1), Emu(TOP + 1)], ("BaseShape", "height"): [Emu(-1), Emu(TOP + 1)],
+        ("_Paragraph", "level"): [-1, 9, 100], ("_Paragraph", "space_before"): [Pt(-1), Pt(1585)], ("_Paragraph", "space_after"): [Pt(-1), Pt(1585)],
+        ("_Paragraph", "line_spacing"): [Pt(-1), Pt(1585)],
+        ("Font", "size"): [0, Emu(0), Pt(0), Pt(0.5), Pt(4001), Emu(-12700)],
+        ("LineFormat", "width"): [Emu(-1), Emu(20116801)],
+        ("Chart", "chart_style"): [0, 49, -1], ("BarPlot", "gap_width"): [-1, 501], ("BarPlot", "overlap"): [-101, 101],
+        ("Marker", "size"): [1, 73, 0], ("TickLabels", "offset"): [-1, 1001],
+        ("ColorFormat", "brightness"): [-1.01, 1.01, 2],
+        ("ValueAxis", "major_unit"): [0, -1.0], ("ValueAxis", "minor_unit"): [0, -0.5],
+        ("TextFrame", "margin_left"): [Emu(2 ** 31)], ("TextFrame", "margin_top"): [Emu(-(2 ** 31) - 1)],
+        ("_Cell", "margin_left"): [Emu(2 ** 31)], ("_Cell", "margin_bottom"): [Emu(-(2 ** 31) - 1)],
+    }
+    for k, v in BAD.items():
+        if k in D:
+            D[k]["bad"] = v
     return D
 
 
@@ -777,6 +797,52 @@ def _same(got, want, tol):
     if isinstance(want, bool) or want is None:
         return got is want
     return got == want and (type(got) is type(want) or not isinstance(want, bool))
+
+
+def connector_refusal_probes():
+    """[(label, None or description)]: a refused end-point assignment leaves the connector as it was"""
+    from pptx import Presentation
+
+    out = []
+    # a refused assignment leaves every reading as it was: connector end points, whose acceptance depends on the other end
+    from pptx.enum.shapes import MSO_CONNECTOR
+    from pptx.util import Emu
+
+    TOP = 27273042316900
+    for attr, start, moved in (("begin_y", (0, 0, 10, 457200), "top"), ("begin_x", (0, 0, 457200, 10), "left"),
+                               ("end_y", (0, 457200, 10, 0), "top"), ("end_x", (457200, 0, 0, 10), "left")):
+        v = 0
+        prs = Presentation()
+        cx = prs.slides.add_slide(prs.slide_layouts[6]).shapes.add_connector(MSO_CONNECTOR.STRAIGHT, *[Emu(q) for q in start])
+        setattr(cx, moved, Emu(TOP))  # a valid position: the far end now lies beyond the coordinate range, which is never stored
+        read = lambda: (cx.begin_x, cx.begin_y, cx.end_x, cx.end_y)
+        was = read()
+        bad = None
+        try:
+            setattr(cx, attr, Emu(v))
+            if getattr(cx, attr) != v:
+                bad = "Connector%r.%s = %d accepted but reads %r" % (was, attr, v, getattr(cx, attr))
+        except ValueError as e:
+            if read() != was:
+                bad = "Connector with (begin_x, begin_y, end_x, end_y) = %r: %s = %d is refused (%s) yet the readings become %r" % (was, attr, v, e, read())
+        out.append(("refused_assignment_leaves_readings[Connector.%s]" % attr, bad))
+    # ... also when the refused value lies on the other side of the other end point (the flip would have changed)
+    for attr in ("begin_x", "begin_y", "end_x", "end_y"):
+        bad = None
+        for start in ((100, 200, 5000, 7000), (5000, 7000, 100, 200), (100, 7000, 5000, 200), (5000, 200, 100, 7000)):
+            other = {"begin_x": start[2], "begin_y": start[3], "end_x": start[0], "end_y": start[1]}[attr]
+            for v in (other + TOP + 1, other - TOP - 1):
+                prs = Presentation()
+                cx = prs.slides.add_slide(prs.slide_layouts[6]).shapes.add_connector(MSO_CONNECTOR.STRAIGHT, *[Emu(q) for q in start])
+                read = lambda: (cx.begin_x, cx.begin_y, cx.end_x, cx.end_y, cx._element.flipH, cx._element.flipV)
+                was = read()
+                try:
+                    setattr(cx, attr, Emu(v))
+                except ValueError as e:
+                    if read() != was:
+                        bad = bad or "Connector (begin_x, begin_y, end_x, end_y, flipH, flipV) = %r: %s = %d is refused (%s) yet these become %r" % (was, attr, v, e, read())
+        out.append(("refused_crossing_assignment_leaves_readings[Connector.%s]" % attr, bad))
+    return out
 
 
 def _native_setget_sweep(tier="quick", seed=0):
@@ -914,6 +980,34 @@ def _native_setget_sweep(tier="quick", seed=0):
                     found.setdefault("%s.%s:changes-%s" % (k[0], n, ch[0]), "%s: %s.%s = %r changed the reading of %s from %r to %r" % (label, cls, n, v, ch[0], before[ch[0]], after[ch[0]]))
                     break
                 first = got
+        # values outside the documented domain
+        for o, n, k in tg:
+            spec = D[k]
+            if not spec.get("bad"):
+                continue
+            try:
+                prepare(o, k)
+                setattr(o, n, spec["vals"][0])
+                was = getattr(o, n)
+            except Exception:
+                continue
+            for v in spec["bad"]:
+                evals[0] += 1
+                before = read_group(o, spec.get("group", ()), n)
+                try:
+                    setattr(o, n, v)
+                    found.setdefault("%s.%s:out-of-domain-accepted" % (k[0], n), "%s: %s.%s = %r (outside the documented domain) was accepted; it now reads %r (was %r)" % (
+                        label, type(o).__name__, n, v, getattr(o, n), was))
+                    break
+                except (ValueError, TypeError):
+                    pass
+                except Exception as e:
+                    found.setdefault("%s.%s:out-of-domain-raises-other" % (k[0], n), "%s: %s.%s = %r raised %r (documented: TypeError or ValueError)" % (label, type(o).__name__, n, v, e))
+                    break
+                now = getattr(o, n)
+                if not _same(now, was, spec.get("tol", 0)) or read_group(o, spec.get("group", ()), n) != before:
+                    found.setdefault("%s.%s:refusal-changes-state" % (k[0], n), "%s: %s.%s = %r was refused, yet it now reads %r (was %r)" % (label, type(o).__name__, n, v, now, was))
+                    break
         # two properties of one object, every (or a sample of the) value pairs, in both orders: each keeps its own value
         done = set()
         for o, n, k in tg:
@@ -965,7 +1059,39 @@ def _native_setget_sweep(tier="quick", seed=0):
         _walk(prs, visit, skip={("Slide", "notes_slide"), ("Presentation", "notes_master"), ("_Background", "fill"), ("_BaseShapes", "turbo_add_enabled")}, budget=2500)
         return out
 
-    decks = [("rich_deck", rich_deck(seed))]
+    def chart_gallery():
+        """one chart of each family, stacked and clustered, with legend, title, data labels and markers switched on"""
+        from pptx.chart.data import BubbleChartData, CategoryChartData, XyChartData
+        from pptx.enum.chart import XL_CHART_TYPE as T
+        from pptx.util import Inches
+
+        prs = Presentation()
+        for ct in (T.BAR_CLUSTERED, T.BAR_STACKED, T.COLUMN_STACKED_100, T.COLUMN_CLUSTERED, T.LINE_MARKERS, T.LINE, T.PIE, T.DOUGHNUT, T.AREA_STACKED, T.RADAR, T.XY_SCATTER, T.BUBBLE):
+            if ct == T.XY_SCATTER:
+                d = XyChartData()
+                sr = d.add_series("s")
+                sr.add_data_point(1, 2)
+                sr.add_data_point(2, 3)
+            elif ct == T.BUBBLE:
+                d = BubbleChartData()
+                sr = d.add_series("s")
+                sr.add_data_point(1, 2, 3)
+                sr.add_data_point(2, 3, 4)
+            else:
+                d = CategoryChartData()
+                d.categories = ["a", "b", "c"]
+                d.add_series("s1", (1, 2, 3))
+                d.add_series("s2", (3, 2, 1))
+            ch = prs.slides.add_slide(prs.slide_layouts[6]).shapes.add_chart(ct, 0, 0, Inches(4), Inches(3), d).chart
+            ch.has_legend = True
+            ch.has_title = True
+            try:
+                ch.plots[0].has_data_labels = True
+            except Exception:
+                pass
+        return prs
+
+    decks = [("rich_deck", rich_deck(seed)), ("chart_gallery", chart_gallery())]
     if tier != "quick":
         repo = os.environ.get("PPTX_REPO", "/repo")
         for f in sorted(glob.glob(os.path.join(repo, "features", "steps", "test_files", "*.pptx"))):
@@ -973,7 +1099,7 @@ def _native_setget_sweep(tier="quick", seed=0):
         decks.append(("rich_deck2", rich_deck(seed + 17)))
     rnd = random.Random(seed)
     for label, prs in decks:
-        bad = sweep(prs, label, 3 if tier == "quick" else 6, rnd)
+        bad = sweep(prs, label, (14 if label == "chart_gallery" else 3) if tier == "quick" else 14, rnd)
         rec("C09.native.assign_read_reset[%s]" % label, bad)
         if bad:
             continue
@@ -994,28 +1120,8 @@ def _native_setget_sweep(tier="quick", seed=0):
         rec("C09.native.sweep_state_survives_reopen[%s]" % label, bad2)
     for sig, wit in sorted(found.items()):
         rec("C09.native.setget[%s]" % sig, wit)
-    # a refused assignment leaves every reading as it was: connector end points, whose acceptance depends on the other end
-    from pptx.enum.shapes import MSO_CONNECTOR
-    from pptx.util import Emu
-
-    TOP = 27273042316900
-    for attr, start, moved in (("begin_y", (0, 0, 10, 457200), "top"), ("begin_x", (0, 0, 457200, 10), "left"),
-                               ("end_y", (0, 457200, 10, 0), "top"), ("end_x", (457200, 0, 0, 10), "left")):
-        v = 0
-        prs = Presentation()
-        cx = prs.slides.add_slide(prs.slide_layouts[6]).shapes.add_connector(MSO_CONNECTOR.STRAIGHT, *[Emu(q) for q in start])
-        setattr(cx, moved, Emu(TOP))  # a valid position: the far end now lies beyond the coordinate range, which is never stored
-        read = lambda: (cx.begin_x, cx.begin_y, cx.end_x, cx.end_y)
-        was = read()
-        bad = None
-        try:
-            setattr(cx, attr, Emu(v))
-            if getattr(cx, attr) != v:
-                bad = "Connector%r.%s = %d accepted but reads %r" % (was, attr, v, getattr(cx, attr))
-        except ValueError as e:
-            if read() != was:
-                bad = "Connector with (begin_x, begin_y, end_x, end_y) = %r: %s = %d is refused (%s) yet the readings become %r" % (was, attr, v, e, read())
-        rec("C09.native.refused_assignment_leaves_readings[Connector.%s]" % attr, bad)
+    for lbl, bad in connector_refusal_probes():
+        rec("C09.native." + lbl, bad)
     return {"contract": "C09.native_setget_sweep", "prop": "C09", "status": "ok", "obligations": obls, "paths": 0, "assumed": [], "functions": {},
             "notes": [], "solver_s": 0.0, "wall_s": _t.time() - t0,
             "bounded": {"name": "C09.native_setget_sweep", "bound": "%d read/write properties with hand-listed documented domains; every value assigned from two different prior values (forwards and backwards through "
